@@ -131,6 +131,21 @@ func (vc *VC) verifyFunction() {
 	vc.obls = append(vc.obls, cover)
 
 	rets := vc.execBody(fr, st)
+	// vacuity guard: an `at call` clause that applied to no call of the function says nothing - a misspelt callee name or
+	// a call that disappeared must not pass silently
+	if vc.spec != nil {
+		for _, cs := range vc.spec.Calls {
+			if !vc.matchedSites[cs] {
+				ord := "*"
+				if cs.Ordinal >= 0 {
+					ord = fmt.Sprintf("%d", cs.Ordinal)
+				}
+				o := vc.obligeNoAssume(&State{pc: "true"}, fmt.Sprintf("%s#at.%s#%s.exists", vc.fnName(), cs.Callee, ord), "assert", "false",
+					"the function contains a call the `at call "+cs.Callee+"#"+ord+"` clause applies to", fn.Pos())
+				_ = o
+			}
+		}
+	}
 	if len(rets) == 0 {
 		vc.note("function has no reachable return")
 		return
@@ -741,7 +756,7 @@ func (vc *VC) execInstr(fr *Frame, in ssa.Instruction, st *State) {
 		r := vc.alloc(st, "mk."+x.Name())
 		c := vc.elemComp(el)
 		es := vc.sortOf(el)
-		vc.set(st, c, fmt.Sprintf("(store %s %s ((as const (Array Int %s)) %s))", vc.get(st, c), r, es, vc.zeroOfSort(es, el)))
+		vc.set(st, c, fmt.Sprintf("(store %s %s %s)", vc.get(st, c), r, vc.zeroRow(es, el)))
 		fr.env[x] = Val{Sl: &SliceVal{r, "0", ln, cp}, Typ: x.Type()}
 	case *ssa.MakeMap:
 		mt := x.Type().Underlying().(*types.Map)
